@@ -697,7 +697,7 @@ func (g *GA) actionResults(n *peg.Node, fd *ast.FuncDecl, info *types.Info) (map
 				}
 				if co, ok := o.(*types.Const); ok {
 					t[g.typeName(co.Type())] = true
-					c[co.Name()] = true
+					c[canonConstName(co)] = true
 					return t, c
 				}
 			}
